@@ -59,7 +59,9 @@ impl C08 {
         let owner = pos.receiver.clone();
         let lp = pos.lp_asset.denom.clone();
         let mut senders: Vec<Addr> = w.users.clone();
-        senders.extend([w.owner.clone(), w.hostile.clone(), w.fc.clone()]);
+        // the pool manager's own account too: it is a delegate for creating and topping up, never
+        // for closing or withdrawing
+        senders.extend([w.owner.clone(), w.hostile.clone(), w.fc.clone(), w.pm.clone(), w.fm.clone()]);
         // farm owners are interesting strangers too
         for f in s.fpost.farms.values() {
             if !senders.contains(&f.owner) {
@@ -71,7 +73,8 @@ impl C08 {
         let base = w.snapshot();
         for sender in &senders {
             let is_owner = *sender == owner;
-            let role = if is_owner { "owner" } else if *sender == w.owner { "contract owner" } else if s.fpost.farms.values().any(|f| f.owner == *sender) { "a farm owner" } else { "stranger" };
+            let is_pm = *sender == w.pm;
+            let role = if is_owner { "owner" } else if is_pm { "the pool manager account" } else if *sender == w.fm { "the farm manager account" } else if *sender == w.owner { "contract owner" } else if s.fpost.farms.values().any(|f| f.owner == *sender) { "a farm owner" } else { "stranger" };
             // close
             if pos.open {
                 w.restore(&base);
@@ -96,7 +99,7 @@ impl C08 {
             if pos.open && w.balance(sender, &lp) > 10 {
                 w.restore(&base);
                 let out = w.apply(&pos_op(sender, PositionAction::Expand { identifier: pos.identifier.clone() }, vec![coin(7, lp.clone())]));
-                if out.is_ok() != is_owner && !(is_owner && !out.is_ok()) {
+                if out.is_ok() != (is_owner || is_pm) && !((is_owner || is_pm) && !out.is_ok()) {
                     rep.failed("authz", None, format!("{role} topped up {}'s position {}", w.name_of(owner.as_str()), pos.identifier), witness(json!({"position": format!("{pos}")})));
                 } else {
                     rep.held("authz", hash_of(&("expand", role, out.is_ok())), || json!({"action": "expand", "by": role, "result": out.short()}));
@@ -104,7 +107,7 @@ impl C08 {
                 // create for somebody else directly
                 w.restore(&base);
                 let out = w.apply(&pos_op(sender, PositionAction::Create { identifier: None, unlocking_duration: pos.unlocking_duration, receiver: Some(owner.to_string()) }, vec![coin(7, lp.clone())]));
-                if out.is_ok() && !is_owner {
+                if out.is_ok() && !is_owner && !is_pm {
                     rep.failed("authz", None, format!("{role} created a position for {}", w.name_of(owner.as_str())), witness(json!({})));
                 } else {
                     rep.held("authz", hash_of(&("create_for", role, out.is_ok())), || json!({"action": "create with receiver = someone else", "by": role, "result": out.short()}));
